@@ -50,3 +50,67 @@ Lemma heat_flux_powerlaw : forall K0 alpha beta p rho T t,
 Proof.
   intros K0 alpha beta p rho T t H r Hr. exists (p / r * T r t). split; [apply H; exact Hr | reflexivity].
 Qed.
+
+(* ---- refutation helpers: derivatives are unique, so a non-zero residual built from ANY valid
+   derivative values refutes the equation *)
+Lemma not_mass_eq : forall k rho u r t rt rr ur,
+  is_derive (fun x => rho r x) t rt -> is_derive (fun x => rho x t) r rr ->
+  is_derive (fun x => u x t) r ur ->
+  rt + u r t * rr + rho r t * ur + k * rho r t * u r t / r <> 0 ->
+  ~ mass_eq k rho u r t.
+Proof.
+  intros k rho u r t rt rr ur H1 H2 H3 Hne [rt' [rr' [ur' [G1 [G2 [G3 Heq]]]]]].
+  apply Hne.
+  rewrite <- (is_derive_unique _ _ _ H1), <- (is_derive_unique _ _ _ H2), <- (is_derive_unique _ _ _ H3).
+  rewrite (is_derive_unique _ _ _ G1), (is_derive_unique _ _ _ G2), (is_derive_unique _ _ _ G3).
+  exact Heq.
+Qed.
+
+Lemma not_momentum_eq : forall rho u P r t ut ur pr,
+  is_derive (fun x => u r x) t ut -> is_derive (fun x => u x t) r ur ->
+  is_derive (fun x => P x t) r pr ->
+  ut + u r t * ur + pr / rho r t <> 0 ->
+  ~ momentum_eq rho u P r t.
+Proof.
+  intros rho u P r t ut ur pr H1 H2 H3 Hne [ut' [ur' [pr' [G1 [G2 [G3 Heq]]]]]].
+  apply Hne.
+  rewrite <- (is_derive_unique _ _ _ H1), <- (is_derive_unique _ _ _ H2), <- (is_derive_unique _ _ _ H3).
+  rewrite (is_derive_unique _ _ _ G1), (is_derive_unique _ _ _ G2), (is_derive_unique _ _ _ G3).
+  exact Heq.
+Qed.
+
+Lemma not_energy_eq : forall k rho u P e F r t et er ur Fr,
+  is_derive (fun x => e r x) t et -> is_derive (fun x => e x t) r er ->
+  is_derive (fun x => u x t) r ur -> is_derive (fun x => F x t) r Fr ->
+  et + u r t * er + P r t / rho r t * (ur + k * u r t / r) + (Fr + k * F r t / r) / rho r t <> 0 ->
+  ~ energy_eq k rho u P e F r t.
+Proof.
+  intros k rho u P e F r t et er ur Fr H1 H2 H3 H4 Hne [et' [er' [ur' [Fr' [G1 [G2 [G3 [G4 Heq]]]]]]]].
+  apply Hne.
+  rewrite <- (is_derive_unique _ _ _ H1), <- (is_derive_unique _ _ _ H2), <- (is_derive_unique _ _ _ H3),
+          <- (is_derive_unique _ _ _ H4).
+  rewrite (is_derive_unique _ _ _ G1), (is_derive_unique _ _ _ G2), (is_derive_unique _ _ _ G3),
+          (is_derive_unique _ _ _ G4).
+  exact Heq.
+Qed.
+
+(* the heat flux is determined by T: any F satisfying is_heat_flux agrees with the power-law flux *)
+Lemma heat_energy_refute : forall k K0 alpha beta p rho u T P e r t, 0 < r ->
+  (forall r', 0 < r' -> is_derive (fun x => T x t) r' (p / r' * T r' t)) ->
+  ~ energy_eq k rho u P e (powerlaw_flux K0 alpha beta p rho T) r t ->
+  ~ (exists F, is_heat_flux K0 alpha beta rho T F t /\ energy_eq k rho u P e F r t).
+Proof.
+  intros k K0 alpha beta p rho u T P e r t Hr HT Hne [F [HF He]].
+  apply Hne.
+  assert (Heq : forall x, 0 < x -> F x t = powerlaw_flux K0 alpha beta p rho T x t).
+  { intros x Hx. destruct (HF x Hx) as [Tr [Hd HFx]].
+    rewrite HFx. unfold powerlaw_flux.
+    rewrite <- (is_derive_unique _ _ _ Hd), (is_derive_unique _ _ _ (HT x Hx)). reflexivity. }
+  destruct He as [et [er [ur [Fr [G1 [G2 [G3 [G4 G5]]]]]]]].
+  exists et, er, ur, Fr.
+  split; [ exact G1 | ]. split; [ exact G2 | ]. split; [ exact G3 | ]. split.
+  - apply (is_derive_ext_loc (fun x => F x t)); [ | exact G4 ].
+    assert (Hloc : locally r (fun x => 0 < x)) by (apply (open_gt 0 r Hr)).
+    revert Hloc. apply filter_imp. intros x Hx. apply Heq. exact Hx.
+  - rewrite <- (Heq r Hr). exact G5.
+Qed.
